@@ -29,6 +29,8 @@ import ast, sys, os, argparse, traceback
 class Unsupported(Exception):
     pass
 
+FAILED = []   # functions that could not be translated (reason), filled by translate()
+
 # (function, ordinal of the loop inside it) -> Lean expression for the fuel (may mention the function's variables)
 FUEL = {
     ('get_resolution', 1): '(MAX_RESOLUTION + 2).toNat',
@@ -42,7 +44,7 @@ PLAN = [
     ('a5/core/serialization.py', 'serialization',
      ['get_resolution', 'deserialize', 'serialize', 'cell_to_children', 'cell_to_parent', 'get_res0_cells',
       'is_first_child', 'get_stride']),
-    ('a5/core/compact.py', 'compact', ['_hierarchical_key', 'uncompact']),
+    ('a5/core/compact.py', 'compact', ['_hierarchical_key', 'uncompact', 'compact']),
 ]
 
 ERR = {'ValueError': '.value', 'IndexError': '.index', 'TypeError': '.type', 'ZeroDivisionError': '.zerodiv',
@@ -228,6 +230,18 @@ def tr_call(fn, e, env):
             binds += b
             parts.append(t)
         return binds, '({ origin := %s, segment := %s, S := %s, resolution := %s } : Py.SCell)' % tuple(parts), T_CELL
+    if f == 'sorted':
+        kw = {k.arg: k.value for k in e.keywords}
+        if len(e.args) == 1 and set(kw) == {'key'} and isinstance(kw['key'], ast.Name) and kw['key'].id in fn.sigs \
+                and fn.sigs[kw['key'].id] == ([T_INT], T_INT) \
+                and isinstance(e.args[0], ast.Call) and isinstance(e.args[0].func, ast.Name) and e.args[0].func.id == 'set' \
+                and len(e.args[0].args) == 1 and not e.args[0].keywords:
+            b, t, ty = tr_expr(fn, e.args[0].args[0], env)
+            if ty != T_LISTINT:
+                raise Unsupported('sorted(set(x)) of a non-list')
+            tmp = fn.tmp()
+            return b + [(tmp, f'Py.sortedSetBy {kw["key"].id} {paren(t)}')], tmp, T_LISTINT
+        raise Unsupported('sorted(...) other than sorted(set(xs), key=<translated function>)')
     args = [tr_expr(fn, a, env) for a in e.args]
     binds = [b for a in args for b in a[0]]
     texts = [a[1] for a in args]
@@ -371,6 +385,20 @@ def assigned(stmts):
 def contains(stmts, kinds):
     return any(isinstance(n, kinds) for s in stmts for n in ast.walk(s))
 
+def has_jump(stmts):
+    """a return anywhere, or a break/continue that belongs to the enclosing loop (not to a loop nested in the statements)"""
+    def walk(n, in_loop):
+        if isinstance(n, ast.Return):
+            return True
+        if isinstance(n, (ast.Break, ast.Continue)) and not in_loop:
+            return True
+        if isinstance(n, (ast.For, ast.While)):
+            return any(walk(c, True) for c in ast.iter_child_nodes(n))
+        if isinstance(n, (ast.FunctionDef, ast.Lambda)):
+            return False
+        return any(walk(c, in_loop) for c in ast.iter_child_nodes(n))
+    return any(walk(s, False) for s in stmts)
+
 def terminates(stmts):
     """every path through the statements ends in return / raise / continue / break"""
     if not stmts:
@@ -477,8 +505,7 @@ def tr_block(fn, stmts, env, k, ind):
             raise Unsupported('append of a non-int')
         return bind_all(b, f'let {lname(lst)} : List Int := {lname(lst)} ++ [{t}];' + nl + tr_block(fn, rest, env, k, ind))
     if isinstance(s, ast.If):
-        jumps = (ast.Return, ast.Continue, ast.Break)
-        if not contains(s.body, jumps) and not contains(s.orelse, jumps) and not (terminates(s.body) or terminates(s.orelse)):
+        if not has_jump(s.body) and not has_jump(s.orelse) and not (terminates(s.body) or terminates(s.orelse)):
             # join point over the variables assigned in the branches that are (or become) defined on both sides
             av = [v for v in assigned([s]) if v in env or (v in assigned(s.body) and v in assigned(s.orelse))]
             envs = []
@@ -611,29 +638,40 @@ def translate(repo):
         body_txt = []
         sigs = {n: (v[0], v[1]) for n, v in sigs_all.items() if n in imported}
         for name in names:
-            if name not in funcs:
-                raise Unsupported(f'{path}: function {name} not found')
-            f = funcs[name]
-            if f.decorator_list:
-                raise Unsupported(f'{name}: decorators ({ast.unparse(f.decorator_list[0])[:40]}) change what a call means')
-            a = f.args
-            if a.vararg or a.kwarg or a.kwonlyargs or a.posonlyargs:
-                raise Unsupported(f'{name}: parameter kinds')
-            ptypes, env = [], {}
-            ndef = len(a.defaults)
-            for i, p in enumerate(a.args):
-                ty = ann_type(p.annotation)
-                d = a.defaults[i - (len(a.args) - ndef)] if i >= len(a.args) - ndef else None
-                if d is not None and not (isinstance(d, ast.Constant) and d.value is None and ty == T_OPTINT):
-                    raise Unsupported(f'{name}: default value of {p.arg}')
-                ptypes.append(ty)
-                env[p.arg] = ty
-            rtype = ann_type(f.returns)
-            fn = Fn(ns, name, {k: T_INT for k in consts}, dict(sigs))
-            fn.ret_type = rtype
-            fn.sigs[name] = (ptypes, rtype)      # (recursion is not expected, but the signature is known)
-            body = tr_block(fn, f.body, env, K(lambda e2: (_ for _ in ()).throw(Unsupported(f'{name}: control reaches the end without return'))), 1)
-            params = ' '.join(f'({lname(p.arg)} : {env[p.arg]})' for p in a.args)
+            try:
+                if name not in funcs:
+                    raise Unsupported(f'{path}: function {name} not found')
+                f = funcs[name]
+                if f.decorator_list:
+                    raise Unsupported(f'decorators ({ast.unparse(f.decorator_list[0])[:40]}) change what a call means')
+                for n in ast.walk(f):
+                    if isinstance(n, (ast.Global, ast.Nonlocal)):
+                        raise Unsupported(f'`{"global" if isinstance(n, ast.Global) else "nonlocal"} {", ".join(n.names)}`: the function keeps state between calls')
+                a = f.args
+                if a.vararg or a.kwarg or a.kwonlyargs or a.posonlyargs:
+                    raise Unsupported('parameter kinds')
+                ptypes, env = [], {}
+                ndef = len(a.defaults)
+                for i, p in enumerate(a.args):
+                    ty = ann_type(p.annotation)
+                    d = a.defaults[i - (len(a.args) - ndef)] if i >= len(a.args) - ndef else None
+                    if d is not None and not (isinstance(d, ast.Constant) and d.value is None and ty == T_OPTINT):
+                        raise Unsupported(f'default value of {p.arg}')
+                    ptypes.append(ty)
+                    env[p.arg] = ty
+                rtype = ann_type(f.returns)
+                fn = Fn(ns, name, {k: T_INT for k in consts}, dict(sigs))
+                fn.ret_type = rtype
+                fn.sigs[name] = (ptypes, rtype)      # (recursion is not expected, but the signature is known)
+                body = tr_block(fn, f.body, env, K(lambda e2: (_ for _ in ()).throw(Unsupported('control reaches the end without return'))), 1)
+                params = ' '.join(f'({lname(p.arg)} : {env[p.arg]})' for p in a.args)
+            except Unsupported as e:
+                # this function (and, through the missing signature, its callers) is left out; the bridge theorems about them no longer build
+                FAILED.append(f'{ns}.{name}: {e}')
+                body_txt.append(f'-- NOT TRANSLATED `{name}`: {str(e)[:200]}\n')
+                sigs.pop(name, None)
+                sigs_all.pop(name, None)
+                continue
             for aux in fn.aux:
                 body_txt.append(aux)
             body_txt.append(f'/-- `{name}` — {path}:{f.lineno} -/\ndef {name} {params} : PyM ({rtype}) :=\n  {body}\n')
@@ -653,19 +691,22 @@ def main():
     ap.add_argument('--out', default=os.path.join(os.path.dirname(os.path.dirname(os.path.abspath(__file__))), 'lean', 'A5', 'Gen', 'Src.lean'))
     a = ap.parse_args()
     try:
+        del FAILED[:]
         txt = translate(a.repo)
-    except Unsupported as e:
-        print('PY2LEAN-FAIL: unsupported construct:', e)
-        txt = ('/- GENERATED by tools/py2lean.py: the current source is outside the translated subset. -/\n'
+    except Exception as e:  # noqa  (a module that cannot be read/parsed at all)
+        traceback.print_exc()
+        print('PY2LEAN-FAIL: translator could not process the source:', repr(e)[:300])
+        txt = ('/- GENERATED by tools/py2lean.py: the current source could not be processed. -/\n'
                'import A5.Model.PySem\n\n'
-               f'-- {str(e)}\n'
-               'namespace A5.Src\n/-- marker: the translation failed, so everything that depends on it fails to build -/\n'
+               f'-- {repr(e)[:300]}\n'
+               'namespace A5.Src\n/-- marker: nothing was translated, so everything that depends on it fails to build -/\n'
                'def translationFailed : Unit := ()\nend A5.Src\n')
         write_if_changed(a.out, txt)
         return 3
-    except Exception:  # noqa
-        traceback.print_exc()
-        print('PY2LEAN-FAIL: translator crashed')
+    if FAILED:
+        write_if_changed(a.out, txt)
+        for f in FAILED:
+            print('PY2LEAN-FAIL: outside the translated subset:', f)
         return 3
     print('src:', write_if_changed(a.out, txt))
     return 0
